@@ -348,6 +348,9 @@ pub mod bbsplus_utils {
             random_scalars.push(get_random());
         }
 
+        #[cfg(feature = "verif_hooks")]
+        crate::verif_hooks::on_scalars(&mut random_scalars);
+
         random_scalars
     }
 
